@@ -266,6 +266,7 @@ pub fn run(cx: &mut Ctx) {
     cx.floor("C11.P3", 13);
     cx.floor("C11.S1", 29);
     cx.floor("C11.X1", 27);
+    delimiter_flags(cx, &up);
 
     // ---- levels from the precedence! invocation
     let mut levels: BTreeMap<String, i64> = BTreeMap::new();
@@ -1067,5 +1068,51 @@ fn infinite_constants(cx: &mut Ctx, up: &Src) {
     } else {
         bad.truncate(3);
         cx.fail(rule, &format!("{}/constant-arm", rule), &up.loc(&arm.pat), &format!("the Constant arm does not render infinite components as `1e309` exactly when they occur: {}: `inf` re-lexes as a name", bad.join("; ")));
+    }
+}
+
+
+/// C11.D1: the "first element" flags of the list renderers are read and cleared only together.
+fn delimiter_flags(cx: &mut Ctx, up: &Src) {
+    let rule = "C11.D1";
+    cx.rule(rule, "separator discipline of the list renderers (arguments, call arguments, collections, comprehensions, comparisons): a `let mut FLAG = true` that is handed to p_delim(&mut FLAG, sep) is used in no other way — p_delim prints the separator unless the flag is set and clears it in the same step (`p_if(!mem::take(flag), sep)`), so whatever is printed, the next separator is not lost; a separate read of the flag (`p_if(!FLAG, ..)`, `if !FLAG`) is accepted only when each such read is matched by a `FLAG = false;`");
+    cx.floor(rule, 5);
+    match up.method("Unparser", "p_delim") {
+        Some(m) if ["{self.p_if(!std::mem::take(first),s)}", "{self.p_if(!mem::take(first),s)}", "{self.p_if(!core::mem::take(first),s)}"].contains(&sm::tsc(&m.block).as_str()) || sm::tsc(&m.block).replace("std::mem::replace(first,false)", "mem::take(first)").replace("std::mem::take", "mem::take") == "{self.p_if(!mem::take(first),s)}" => cx.ok(rule, "p_delim prints the separator unless *first, and clears *first (mem::take)"),
+        Some(m) => cx.fail(rule, &format!("{}/p_delim", rule), &up.loc(m), "p_delim is not `self.p_if(!mem::take(first), s)`"),
+        None => return cx.anchor_missing(rule, "Unparser::p_delim"),
+    }
+    for i in up.impls() {
+        for it in &i.items {
+            let syn::ImplItem::Fn(m) = it else { continue };
+            let fname = m.sig.ident.to_string();
+            if fname == "p_delim" {
+                continue;
+            }
+            // token level (list renderers sit inside `group_if!` macro invocations, which syn does not parse)
+            let mut toks: Vec<String> = vec![];
+            sm::flat_tokens(quote::ToTokens::to_token_stream(&m.block), &mut toks);
+            let mut flags: BTreeSet<String> = BTreeSet::new();
+            let mut n_delim: BTreeMap<String, usize> = BTreeMap::new();
+            for w in toks.windows(5) {
+                if w[0] == "p_delim" && w[1] == "(" && w[2] == "&" && w[3] == "mut" {
+                    flags.insert(w[4].clone());
+                    *n_delim.entry(w[4].clone()).or_default() += 1;
+                }
+            }
+            for x in flags {
+                let total = toks.iter().filter(|t| **t == x).count();
+                let n_let = toks.windows(4).filter(|w| w[0] == "let" && w[1] == "mut" && w[2] == x && w[3] == "=").count();
+                let n_reads = toks.windows(2).filter(|w| w[0] == "!" && w[1] == x).count();
+                let n_clears = toks.windows(4).filter(|w| w[0] == x && w[1] == "=" && w[2] == "false" && w[3] == ";").count();
+                let n_pairs = if n_reads == n_clears { n_reads } else { 0 };
+                let nd = n_delim.get(&x).copied().unwrap_or(0);
+                if total == n_let + nd + 2 * n_pairs {
+                    cx.ok(rule, &format!("{}: flag `{}` — {} p_delim use(s), no other access", fname, x, nd));
+                } else {
+                    cx.fail(rule, &format!("{}/{}/{}", rule, fname, x), &up.loc(m), &format!("{}: the separator flag `{}` is accessed {} time(s) outside p_delim(&mut {}, ..) (and outside a read directly followed by `{} = false;`): something is printed without clearing the flag, so the following separator is lost (e.g. `lambda *, k: k` rendered as `lambda*k: k`)", fname, x, total - n_let - nd - 2 * n_pairs, x, x));
+                }
+            }
+        }
     }
 }
